@@ -52,8 +52,8 @@ func validateSteps(c *core.Ctx, runs []stepRun) map[[2]int]string {
 		v := map[[2]int]string{}
 		for len(g) > 0 {
 			batch := g
-			if len(batch) > 400 {
-				batch = g[:400]
+			if len(batch) > 150 {
+				batch = g[:150]
 			}
 			var b bytes.Buffer
 			for n, r := range batch {
@@ -66,16 +66,17 @@ func validateSteps(c *core.Ctx, runs []stepRun) map[[2]int]string {
 				g = g[len(batch):]
 				continue
 			}
-			if t.Violated != "" || t.TimedOut || !t.OK {
-				// an invariant of the specification failed along a matched prefix, or TLC itself failed
+			if t.Violated == "Safe" {
+				// an invariant of the specification failed along a matched prefix
 				for _, r := range batch {
-					v[[2]int{r.Case, r.Idx}] = fmt.Sprintf("step validation did not complete: violated=%q timedOut=%v", t.Violated, t.TimedOut)
+					v[[2]int{r.Case, r.Idx}] = "an invariant of Pipeline.tla fails along the recorded run (or one concatenated with it)"
 				}
-				if t.Violated == "Safe" {
-					for _, r := range batch {
-						v[[2]int{r.Case, r.Idx}] = "an invariant of Pipeline.tla fails along the recorded run (or one concatenated with it)"
-					}
-				}
+				g = g[len(batch):]
+				continue
+			}
+			if t.Violated != "" || t.TimedOut || !t.OK {
+				// TLC itself did not finish (time, memory): no verdict about these runs - inconclusive, never a rejection
+				c.Infra("step validation of %d runs (%d stages, %d days) did not complete: violated=%q timedOut=%v %s", len(batch), keys[i][0], keys[i][1], t.Violated, t.TimedOut, tailStr(t.ErrorText, 200))
 				g = g[len(batch):]
 				continue
 			}
